@@ -785,7 +785,7 @@ func init() {
 	mc.Register(&mc.Prop{
 		ID:    "C05",
 		Level: "exploration",
-		Rule: cliStreamRule[1:] + " Command line: goalign translate --phase 0,1,2,-1 x --genetic-code (not given, standard, mitov, mitoi) x aligned / --unaligned / --ref-seq on 4 sets holding the codons on which the three tables differ: the output must be what Translate / TranslateByReference give for that frame and table. " + "bounded-exhaustive enumeration: (i) all 42^3 codons over IUPAC letters in both cases plus - . * ? X x Z 1 space 0xE9, x 3 genetic codes, through Sequence.Translate and Alignment.Translate, and every codon under the three codes in all 6 orders inside one process (a result must not depend on which code an earlier call used); " +
+		Rule: cliStreamRule[1:] + "(Free-running complement under the race detector: 8 goroutines doing this property's operations on objects of their own must get the values the same work gives alone.)  Command line: goalign translate --phase 0,1,2,-1 x --genetic-code (not given, standard, mitov, mitoi) x aligned / --unaligned / --ref-seq on 4 sets holding the codons on which the three tables differ: the output must be what Translate / TranslateByReference give for that frame and table. " + "bounded-exhaustive enumeration: (i) all 42^3 codons over IUPAC letters in both cases plus - . * ? X x Z 1 space 0xE9, x 3 genetic codes, through Sequence.Translate and Alignment.Translate, and every codon under the three codes in all 6 orders inside one process (a result must not depend on which code an earlier call used); " +
 			"(ii) all sequences of length 0..6 (quick) / 0..8 (thorough) over {A,T,G,R,-} x frames {0,1,2,-1} x 3 codes through Sequence/SeqBag/Alignment.Translate; " +
 			"(ii'') rows of every length 9..100 and within -2..+3 of 256, 1024, 4096, 65536 cycling through codons on which the tables differ, ambiguity codes, lower case and U, three starting points x 3 codes x every frame, as sequence, set and alignment; (iii) CodonAlign for all nt rows of length 3..6/8 over ACGT with every placement of <=2 gap columns; (iv) TranslateByReference for all 2-row alignments L<=6/7 over {A,C,G,-} x frames x each reference, and for references whose codon is split by a run of 3 or 4 gaps (after its 1st or 2nd base, with and without a following codon) against every other row over {A,C,-}; and an upper-case DNA row beside every row of length 3,4,6(,7) over lower case, U/u and an ambiguity code, each as reference, standard and vertebrate mitochondrial tables (case folding and U->T on the reference-guided path). " +
 			"A case is non-trivial when the call succeeded and its full result was compared with the NCBI-table oracle (error-path and skipped cases are not counted); distinct = distinct (entry point, input, frame, code).",
@@ -794,6 +794,8 @@ func init() {
 			"sequences containing a symbol goalign's documented alphabet detection does not accept as nucleotide (Z, digit, blank, non-ASCII) may be rejected with an error instead of translated",
 			"TranslateByReference with gaps is only constrained in frame 0 (as stated); in frames 1,2 it must merely not panic",
 		},
+		// free-running complement: goroutines that each own their objects must get what they get alone (harness/racepass)
+		Post: func(m *mc.Master) { m.RacePass("own-translate") },
 		Tasks: func(tier string) []mc.Task {
 			return append(append(c05Tasks(tier), cliStreamTasks("C05")...), c05CLITasks()...)
 		},
